@@ -326,9 +326,18 @@ func VerifC19Relay() {
 		agentDone <- true
 	}()
 
+	// the client's side of the store may suffer transient read failures while it
+	// waits for the response (HP-19d)
+	var cs types.Store = s
+	readFaulted := false
+	if rt.Param("readFaults", 0) > 0 && rt.Bool("readFault") {
+		fs := &c19FlakyReadStore{Store: s, failFrom: rt.Choice("readFault.at", 2), failures: 1}
+		cs = fs
+		readFaulted = true
+	}
 	w := rt.NewRecorder()
 	r := appRequest("POST", "/page", payload, nil)
-	proxyHandler(ctx, s, "req-1", w, r)
+	proxyHandler(ctx, cs, "req-1", w, r)
 	<-agentDone
 
 	allowedUser := env.current != nil && (owner == "alice@example.com" || owner == "allUsers")
@@ -348,6 +357,15 @@ func VerifC19Relay() {
 		rt.Assert(strings.Contains(fetched, payload) && strings.Contains(fetched, "/page"), "C19.agent-fetches-the-clients-serialised-request")
 	}
 	rt.Assert(w.Code == 504 || posted, "C19.client-gets-504-unless-a-response-was-posted")
+	if posted {
+		// the agent posts without any (virtual) time passing, i.e. well inside the
+		// client's wait: the client must receive it, also when one of its polls of
+		// the store failed transiently
+		if readFaulted {
+			rt.Cover("C19.client-poll-failed-transiently")
+		}
+		rt.Assert(w.Code != 504, "C19.response-posted-in-time-reaches-the-waiting-client")
+	}
 	if w.Code != 504 && w.Code != 500 {
 		rt.Cover("C19.client-got-the-response")
 		rt.Assert(w.Code == 201 && string(w.Body) == respBody && w.H.Get("X-Backend") == "yes", "C19.client-receives-exactly-the-posted-response")
@@ -379,6 +397,22 @@ func (f *c19FailingStore) WriteRequest(ctx context.Context, r *types.Request) er
 		return errors.New("injected")
 	}
 	return f.Store.WriteRequest(ctx, r)
+}
+
+// c19FlakyReadStore fails `failures` consecutive ReadResponse calls, starting
+// with call number failFrom, with a transient (not "no such entity") error.
+type c19FlakyReadStore struct {
+	types.Store
+	calls, failFrom, failures int
+}
+
+func (f *c19FlakyReadStore) ReadResponse(ctx context.Context, b, r string) (*types.Response, error) {
+	n := f.calls
+	f.calls++
+	if n >= f.failFrom && n < f.failFrom+f.failures {
+		return nil, errors.New("injected transient read failure")
+	}
+	return f.Store.ReadResponse(ctx, b, r)
 }
 
 func VerifC19NoHang() {
